@@ -178,7 +178,7 @@ def run(prop, tier, seed, replay=None):
     ck.cov['tlc_configs'] = []
     # ---- 1. exhaustive small configurations (known-finding classes pruned), edge cover replayed
     plans = [([1], 2, 3, 0, 2), ([1], 2, 2, 1, 1)] if tier == 'quick' else \
-            [([1], 2, 3, 0, 2), ([1], 2, 2, 1, 2), ([1, 2], 2, 1, 0, 0), ([1], 1, 2, 1, 1), ([1, 2], 2, 1, 1, 0)]
+            [([1], 2, 3, 0, 2), ([1], 2, 2, 1, 2), ([1, 2], 2, 1, 0, 0), ([1], 1, 2, 1, 1)]
     for (streams, qcap, ma, mb, mexh) in plans:
         ck.log('TLC exhaustive: streams %s, queue cap %d, msgs A=%d B=%d, exhaust toggles %d' % (streams, qcap, ma, mb, mexh))
         res, nodes, edges, inits = tlc.dump_graph('MC_Session', 'mc.cfg', timeout=1500,
@@ -280,11 +280,13 @@ def run(prop, tier, seed, replay=None):
         from checks import callback
         callback.run('C10', tier, seed, ck=ck, finish=False)
     if tier == 'thorough' and not ck.violations:
-        big = tlc.run('MC_Session', 'mc.cfg', timeout=1500, extra_files=mc_files([1, 2], 2, 1, 1, 1, True, INVS))
-        if big.violation:
-            ck.inconc('TLC reports %s on the larger configuration' % big.violation)
-        elif big.ok:
-            ck.add('states', big.distinct)
-            ck.add('transitions', big.generated)
-            ck.cov['tlc_configs'].append('Session streams={1,2} msgs=(1,1) exhaust<=1: %d states, %.0fs' % (big.distinct, big.wall))
+        for (streams, qcap, ma, mb, mexh) in [([1, 2], 2, 1, 1, 0), ([1, 2], 2, 1, 1, 1)]:
+            big = tlc.run('MC_Session', 'mc.cfg', timeout=2400, extra_files=mc_files(streams, qcap, ma, mb, mexh, True, INVS))
+            if big.violation:
+                ck.inconc('TLC reports %s on the larger configuration %s' % (big.violation, streams))
+            elif big.ok:
+                ck.add('states', big.distinct)
+                ck.add('transitions', big.generated)
+                ck.cov['tlc_configs'].append('Session streams=%s msgs=(%d,%d) exhaust<=%d (TLC only): %d states, %.0fs'
+                                             % (streams, ma, mb, mexh, big.distinct, big.wall))
     return ck.finish()
